@@ -19,7 +19,7 @@ META = {
     "text": "For each of the 16 add_constraint_G / add_constraint_eq_G methods, every operand tuple up to total arity 3 (quick) / 4 (thorough) (one more over a reduced alphabet) drawn with "
             "repetition from {4 labels, NOT(a), AND(b,c), OR(a,d), XOR(b,d), a PUBO dict, the constant expressions 1 and 0}, lam in {1, 2.5, 0.5}: the terms "
             "added to an empty PCBO are tabulated over all 16 assignments and must be 0 where the gate relation holds and >= lam elsewhere, mention no "
-            "ancilla, and is_solution_valid must agree with the relation. Histories: <=1 (quick) / <=2 (thorough) constraints from an 8-call menu on a model A, a model B derived from A "
+            "ancilla, and is_solution_valid must agree with the relation. Histories: <=1 (quick) / <=2 (thorough) constraints from a 10-call menu (labels and AND-expression operands) on a model A, a model B derived from A "
             "(copy, PCBO(A), A+0, 0+A, A-0, A*1), then <=1 / <=2 further constraints each on A or B; each model's penalty table and is_solution_valid must reflect exactly the constraints of its own lineage.",
     "note": "Bounded: 4 variables, arity <= 3/4, operand alphabet of 12. Reference gates are python booleans on reference tables.",
 }
@@ -80,7 +80,9 @@ def gen_cases(tier):
 
 # (gate, eq, operand label indices): one call per family, over 4 labels
 SEQ_MENU = [("OR", False, (0, 1)), ("AND", True, (2, 0, 1)), ("XOR", False, (0, 2)), ("NOT", False, (3,)), ("XOR", True, (0, 1, 2)),
-            ("NAND", False, (1, 3)), ("OR", True, (3, 0, 1)), ("BUFFER", True, (2, 3))]
+            ("NAND", False, (1, 3)), ("OR", True, (3, 0, 1)), ("BUFFER", True, (2, 3)),
+            # expression operands: these reach add_constraint_eq_zero with the shape z - x y (its special form) on a non-empty model
+            ("BUFFER", True, (2, ("AND", 0, 1))), ("XOR", True, (3, ("AND", 0, 2)))]
 DERIVE = ["copy", "ctor", "add0", "radd0", "sub0", "mul1"]
 
 
@@ -93,12 +95,13 @@ def check_seq(case, st):
 
     def rel(i):
         g, eq, idx = SEQ_MENU[i]
-        refs = [b[j].astype(bool) for j in idx]
+        refs = [(b[j].astype(bool) if isinstance(j, int) else (b[j[1]].astype(bool) & b[j[2]].astype(bool))) for j in idx]
         return (refs[0] == ref_gate(g, refs[1:])) if eq else ref_gate(g, refs)
 
     def apply(H, i):
         g, eq, idx = SEQ_MENU[i]
-        return call(getattr(H, "add_constraint_%s%s" % ("eq_" if eq else "", g)), *[labels[j] for j in idx], lam=1)[0]
+        args = [(labels[j] if isinstance(j, int) else qv.sat.AND(labels[j[1]], labels[j[2]])) for j in idx]
+        return call(getattr(H, "add_constraint_%s%s" % ("eq_" if eq else "", g)), *args, lam=1)[0]
     st.nontrivial += 1
 
     def v(kind, msg):
